@@ -59,6 +59,8 @@ enum LOp {
     Wrapped { method: String, path: String, id: u64, body_len: Option<u64>, inner_log: Option<String>, result: HRes },
     Install(SyncSender<LogEvent>),
     DropGuard(ClearGlobalLoggerOnDrop),
+    /// the guard's scope is left by a panic that is caught further up: the unwinder drops it
+    DropGuardByUnwind(ClearGlobalLoggerOnDrop),
     Quit,
 }
 
@@ -171,6 +173,14 @@ fn exec(op: LOp) -> LRes {
         },
         LOp::DropGuard(g) => {
             drop(g);
+            LRes { ok: true, ..Default::default() }
+        }
+        LOp::DropGuardByUnwind(g) => {
+            // (resume_unwind starts an unwind without running the panic hook)
+            let _ = std::panic::catch_unwind(std::panic::AssertUnwindSafe(move || {
+                let _held = g;
+                std::panic::resume_unwind(Box::new("deliberate unwind through the guard's scope"));
+            }));
             LRes { ok: true, ..Default::default() }
         }
         LOp::Quit => LRes::default(),
@@ -524,8 +534,14 @@ fn scenario(cfg: &RunCfg) -> Outcome {
             5 => match guard.take() {
                 Some(g) => {
                     global = Global::None;
-                    trace.push(format!("t{t}: drop logger guard"));
-                    (LOp::DropGuard(g), Some(true), None)
+                    if gen::ratio(1, 4) {
+                        gen::count("probe.guard_dropped_by_unwind");
+                        trace.push(format!("t{t}: logger guard dropped by an unwind (panic caught further up)"));
+                        (LOp::DropGuardByUnwind(g), Some(true), None)
+                    } else {
+                        trace.push(format!("t{t}: drop logger guard"));
+                        (LOp::DropGuard(g), Some(true), None)
+                    }
                 }
                 None => continue 'ops,
             },
@@ -700,9 +716,9 @@ pub fn spec() -> PropertySpec {
     PropertySpec {
         id: "C18",
         level: "exploration",
-        rule: "1-8 REAL OS threads, each executing one logging-API operation only when the seeded scheduler hands it the baton (parked-and-released: the choice of who runs is the tape's, the threads are real because thread-local tags are the point). Programs of 4-43 operations over {add thread tag, clear, error/info/debug with 0-6 tags from a pool that includes the prioritised names, log_request_and_response with Ok / Err (with/without response, tags, message) and an optional inner log call, set_global_logger with a fresh channel, drop the guard, drop a receiver (logger stopped)}. Oracle: sequential reference model executed in baton order (global state None/Default/Some(k), per-thread tag lists, per-logger expected queues); after every operation all receivers are drained and compared: exactly one event per logging call in the right logger, tag order = call tags then the calling thread's tags, stably ordered by the fixed priority, none of another thread's tags, level and code per the wrapper rules, returned response, refusal of a second install, stopped logger => Err not panic. fd 1 is replaced by a pipe for the duration of every run and the stdout default's lines are compared as a multiset. distinct = hash of the operation trace; non-trivial = at least 2 events checked.",
+        rule: "1-8 REAL OS threads, each executing one logging-API operation only when the seeded scheduler hands it the baton (parked-and-released: the choice of who runs is the tape's, the threads are real because thread-local tags are the point). Programs of 4-43 operations over {add thread tag, clear, error/info/debug with 0-6 tags from a pool that includes the prioritised names, log_request_and_response with Ok / Err (with/without response, tags, message) and an optional inner log call, set_global_logger with a fresh channel, drop the guard (normally or by an unwind that is caught further up), drop a receiver (logger stopped)}. Oracle: sequential reference model executed in baton order (global state None/Default/Some(k), per-thread tag lists, per-logger expected queues); after every operation all receivers are drained and compared: exactly one event per logging call in the right logger, tag order = call tags then the calling thread's tags, stably ordered by the fixed priority, none of another thread's tags, level and code per the wrapper rules, returned response, refusal of a second install, stopped logger => Err not panic. fd 1 is replaced by a pipe for the duration of every run and the stdout default's lines are compared as a multiset. distinct = hash of the operation trace; non-trivial = at least 2 events checked.",
         scenarios: vec![Scenario { name: "c18.threads", property: "C18", func: scenario, runs_quick: 100_000, runs_thorough: 2_500_000, doc: "baton-scheduled caller threads" }],
-        required_probes: vec!["probe.events_checked", "probe.event_with_many_tags", "probe.multi_thread", "probe.stdout_default_observed", "fault.logger_receiver_dropped"],
+        required_probes: vec!["probe.events_checked", "probe.event_with_many_tags", "probe.guard_dropped_by_unwind", "probe.multi_thread", "probe.stdout_default_observed", "fault.logger_receiver_dropped"],
         components: json!({
             "real": ["/repo/src/log/** (unmodified)", "std::sync::Mutex, std::sync::mpsc, thread_local! (cannot be substituted)", "OS threads (parked and released one at a time)"],
             "simulated": ["the choice of which thread performs its next operation (seeded baton)"],
